@@ -1530,6 +1530,7 @@ pub fn calc_length(len_str: &str, timebase: isize, def_len: isize) -> isize {
             break;
         }
         cur.next(); // skip '^'
+        step_mode = false;
         if cur.eq_char('%') {
             step_mode = true;
             cur.next();
